@@ -138,6 +138,31 @@ theorem block_grammar_unambiguous (k k' : Nat) (bs bs' : List (Nat × List Line)
   rw [h1] at h2
   exact (Prod.mk.inj h2).1
 
+/-- **`--heading`**: blocks (path line + result lines) separated by `k ≥ 1` blank lines are recovered
+exactly by the cutting procedure; no result line ends up outside a block. -/
+theorem parse_join_heading (k : Nat) (hk : 0 < k) (blocks : List (Nat × List HLine))
+    (hwf : ∀ pb ∈ blocks, wfHBlock pb.1 pb.2 = true) :
+    parseH (joinHLines k blocks) = (blocks, List.replicate (blocks.length - 1) k, 0, 0, false) := by
+  match blocks, hwf with
+  | [], _ => rfl
+  | (p, b) :: rest, hwf =>
+    have hwfp : wfHBlock p b = true := hwf (p, b) List.mem_cons_self
+    have hwfr : ∀ pb ∈ rest, wfHBlock pb.1 pb.2 = true := fun x hx => hwf x (List.mem_cons_of_mem _ hx)
+    unfold parseH
+    rw [joinHLines_cons, List.foldl_append, hfold_block p b hwfp {}]
+    simp only
+    rw [hfold_rest k hk rest p b [] [] 0 true hwfr]
+    simp
+
+theorem heading_grammar_unambiguous (k k' : Nat) (hk : 0 < k) (hk' : 0 < k') (bs bs' : List (Nat × List HLine))
+    (hwf : ∀ pb ∈ bs, wfHBlock pb.1 pb.2 = true) (hwf' : ∀ pb ∈ bs', wfHBlock pb.1 pb.2 = true)
+    (h : joinHLines k bs = joinHLines k' bs') : bs = bs' := by
+  have h1 := parse_join_heading k hk bs hwf
+  have h2 := parse_join_heading k' hk' bs' hwf'
+  rw [h] at h1
+  rw [h1] at h2
+  exact (Prod.mk.inj h2).1
+
 /-! ### files whose search fails part-way -/
 
 /-- Whether or not a file's search ended in an error, what it had printed until then is a block like any
